@@ -44,7 +44,19 @@ fn case(t: &mut Tape, info: &mut CaseInfo) -> Result<(), String> {
         Some(9) => ModsSpec { bits: 0, repr: ModRepr::Lazer, extras: vec![LazerExtra::TenKeys] },
         Some(i) => ModsSpec { bits: KEY_BITS[i], repr: *t.pick(&[ModRepr::U32, ModRepr::Legacy, ModRepr::Intermode, ModRepr::IntermodeRef, ModRepr::Lazer]), extras: Vec::new() },
     };
-    let src = spec.decode();
+    // a tenth of the files lists its objects out of chronological order (the decoder has to order them;
+    // the catch conversion leaves the objects as it finds them)
+    let src = if t.chance(1, 10) && spec.objects.len() >= 2 {
+        let mut shuffled = spec.clone();
+        for i in (1..shuffled.objects.len()).rev() {
+            let j = t.below_usize(i + 1);
+            shuffled.objects.swap(i, j);
+        }
+        info.label("object-lines-out-of-order");
+        rosu_pp::Beatmap::from_bytes(shuffled.render().as_bytes()).map_err(|e| format!("decode: {e}"))?
+    } else {
+        spec.decode()
+    };
     map_labels(&spec, info);
     info.label(format!("target={target:?}"));
     if let Some(i) = key_idx {
@@ -149,7 +161,7 @@ pub fn property() -> Property {
         id: "C19",
         subchecks: vec![SubCheck {
             name: "converted-map-wellformed",
-            rule: "osu G-MAP (all object mixes, 1/5 with adversarial numeric corners, slider lengths/repeats incl. the short-slider->hit-burst regime, time-tagged hit sounds on circles/spinners, node sounds, SV changes, versions <8 and >=8) x target taiko/catch/mania x key mods 1K-10K in every representation. Oracle: mode==target, is_convert; hit_objects non-decreasing; durations finite >= 0; the three control-point vectors strictly increasing (total_cmp); taiko: one sound per object, no hold notes, every source circle/spinner with a unique start time keeps its tagged sound; mania: cs == key-mod value else an integer in 4..=7, only notes/hold notes, 0<=x<512 and floor(x/(512/K))<=K-1 without the library's clamp; catch: objects, sounds and control points == source. Non-trivial: >=5 source objects and (a slider split into hits or a mania convert with a key mod).",
+            rule: "(a tenth of the source files lists its objects out of chronological order) osu G-MAP (all object mixes, 1/5 with adversarial numeric corners, slider lengths/repeats incl. the short-slider->hit-burst regime, time-tagged hit sounds on circles/spinners, node sounds, SV changes, versions <8 and >=8) x target taiko/catch/mania x key mods 1K-10K in every representation. Oracle: mode==target, is_convert; hit_objects non-decreasing; durations finite >= 0; the three control-point vectors strictly increasing (total_cmp); taiko: one sound per object, no hold notes, every source circle/spinner with a unique start time keeps its tagged sound; mania: cs == key-mod value else an integer in 4..=7, only notes/hold notes, 0<=x<512 and floor(x/(512/K))<=K-1 without the library's clamp; catch: objects, sounds and control points == source. Non-trivial: >=5 source objects and (a slider split into hits or a mania convert with a key mod).",
             quick: 300_000,
             thorough: 3_000_000,
             tape_len: 1500,
